@@ -273,7 +273,7 @@ pub fn generate(w: &mut dyn Write, seed: u64, thorough: bool) {
                     for x in &resp_writes {
                         ops.push_str(&format!(";E{}", hex(x)));
                     }
-                    let sargs: Vec<String> = vec!["sstcp".into(), kname.into(), hex(&key), "-".into(), users_s.clone(), "server".into(), hex(&ssalt), "-".into(), now.to_string(), ops];
+                    let sargs: Vec<String> = vec!["sstcp".into(), kname.into(), hex(&key), "-".into(), users_s.clone(), "server".into(), hex(&ssalt), "-".into(), now.to_string(), ops, if !is22 || segs[0].len() >= head { format!("@x={}", hex(&writes.concat())) } else { "@-".to_string() }];
                     if si == 0 {
                         let sf: Vec<&str> = sargs.iter().map(|s| s.as_str()).collect();
                         let r = exec(&sf);
@@ -289,24 +289,24 @@ pub fn generate(w: &mut dyn Write, seed: u64, thorough: bool) {
                     let rhead = n + if is22 { 11 + n + 16 } else { 0 };
                     for segs in segmentations(&mut rng, &resp_wire, rhead, per) {
                         let ops = format!("E{};{}", hex(&writes[0]), ops_d(&segs));
-                        let a: Vec<String> = vec!["sstcp".into(), kname.into(), hex(&ckey), cikeys.clone(), "none".into(), "client".into(), hex(&csalt), addr.clone(), now.to_string(), ops];
+                        let a: Vec<String> = vec!["sstcp".into(), kname.into(), hex(&ckey), cikeys.clone(), "none".into(), "client".into(), hex(&csalt), addr.clone(), now.to_string(), ops, if !is22 || segs[0].len() >= rhead { format!("@x={}", hex(&resp_writes.concat())) } else { "@-".to_string() }];
                         crate::emit_case(w, &a, exec);
                     }
                     // a response made for ANOTHER client's request (different request salt) must be refused (2022)
                     let other = rng.bytes(n);
                     let ops = format!("E{};D{}", hex(&writes[0]), hex(&resp_wire));
-                    let a: Vec<String> = vec!["sstcp".into(), kname.into(), hex(&ckey), cikeys.clone(), "none".into(), "client".into(), hex(&other), addr.clone(), now.to_string(), ops];
+                    let a: Vec<String> = vec!["sstcp".into(), kname.into(), hex(&ckey), cikeys.clone(), "none".into(), "client".into(), hex(&other), addr.clone(), now.to_string(), ops, if is22 { "@n".to_string() } else { "@-".to_string() }];
                     crate::emit_case(w, &a, exec);
                     // reflection: the client's own request bytes come back
                     let ops = format!("E{};D{}", hex(&writes[0]), hex(&req));
-                    let a: Vec<String> = vec!["sstcp".into(), kname.into(), hex(&ckey), cikeys.clone(), "none".into(), "client".into(), hex(&csalt), addr.clone(), now.to_string(), ops];
+                    let a: Vec<String> = vec!["sstcp".into(), kname.into(), hex(&ckey), cikeys.clone(), "none".into(), "client".into(), hex(&csalt), addr.clone(), now.to_string(), ops, if is22 { "@n".to_string() } else { "@-".to_string() }];
                     crate::emit_case(w, &a, exec);
                 }
                 // 4. mutations of the request: every truncation point near the header, bit flips, chunk duplication
                 if ai <= 1 {
                     let lim = (head + 60).min(req.len());
                     for cut in (0..lim).step_by(if thorough { 1 } else { 3 }) {
-                        let sargs: Vec<String> = vec!["sstcp".into(), kname.into(), hex(&key), "-".into(), users_s.clone(), "server".into(), hex(&ssalt), "-".into(), now.to_string(), format!("D{}", hex(&req[..cut]))];
+                        let sargs: Vec<String> = vec!["sstcp".into(), kname.into(), hex(&key), "-".into(), users_s.clone(), "server".into(), hex(&ssalt), "-".into(), now.to_string(), format!("D{}", hex(&req[..cut])), format!("@p={}", hex(&writes.concat()))];
                         crate::emit_case(w, &sargs, exec);
                     }
                     let flips = if thorough { req.len().min(400) * 8 } else { 60 };
@@ -314,7 +314,7 @@ pub fn generate(w: &mut dyn Write, seed: u64, thorough: bool) {
                         let bit = if thorough { j } else { rng.below((req.len().min(400) * 8) as u64) as usize };
                         let mut m = req.clone();
                         m[bit / 8] ^= 1 << (bit % 8);
-                        let sargs: Vec<String> = vec!["sstcp".into(), kname.into(), hex(&key), "-".into(), users_s.clone(), "server".into(), hex(&ssalt), "-".into(), now.to_string(), format!("D{}", hex(&m))];
+                        let sargs: Vec<String> = vec!["sstcp".into(), kname.into(), hex(&key), "-".into(), users_s.clone(), "server".into(), hex(&ssalt), "-".into(), now.to_string(), format!("D{}", hex(&m)), format!("@p={}", hex(&writes.concat()))];
                         crate::emit_case(w, &sargs, exec);
                     }
                 }
@@ -371,9 +371,9 @@ pub fn generate(w: &mut dyn Write, seed: u64, thorough: bool) {
         }
         // 6. malformed stream: random bytes of many lengths (first read sizes around every threshold)
         for l in (0..140).step_by(if thorough { 1 } else { 3 }) {
-            let sargs: Vec<String> = vec!["sstcp".into(), kname.into(), hex(&key), "-".into(), "none".into(), "server".into(), hex(&rng.bytes(n)), "-".into(), now.to_string(), format!("D{}", hex(&rng.bytes(l)))];
+            let sargs: Vec<String> = vec!["sstcp".into(), kname.into(), hex(&key), "-".into(), "none".into(), "server".into(), hex(&rng.bytes(n)), "-".into(), now.to_string(), format!("D{}", hex(&rng.bytes(l))), "@n".to_string()];
             crate::emit_case(w, &sargs, exec);
-            let a: Vec<String> = vec!["sstcp".into(), kname.into(), hex(&key), "-".into(), "none".into(), "client".into(), hex(&rng.bytes(n)), "4:7f000001:80".into(), now.to_string(), format!("Eaa;D{}", hex(&rng.bytes(l)))];
+            let a: Vec<String> = vec!["sstcp".into(), kname.into(), hex(&key), "-".into(), "none".into(), "client".into(), hex(&rng.bytes(n)), "4:7f000001:80".into(), now.to_string(), format!("Eaa;D{}", hex(&rng.bytes(l))), "@n".to_string()];
             crate::emit_case(w, &a, exec);
         }
     }
